@@ -205,4 +205,19 @@ example : (runGen (init 2) [.work 0, .sigint, .work 1, .exit]).map
 /-- the main thread cannot exit in the middle of a normal run -/
 example : runGen (init 2) [.work 0, .work 1, .work 0, .exit] = none := by decide
 
+/-! ### the handler exists in every run that can create a temporary file -/
+
+/-- **C18_handler_installed.** `processing_loop` installs the SIGINT handler whenever there is any path to process, before
+any worker thread is spawned (regenerated from the source on every run). `C18_full_holds` models Ctrl-C as "the handler
+runs"; that is only what happens if a handler was installed for THIS run. -/
+theorem C18_handler_installed : handlerInstalledWheneverWorkers = true := by decide
+
+/-- without a handler Ctrl-C has its default disposition: the process dies on the spot and whatever is on disk stays -/
+def killed (s : St) : St := { s with exited := true }
+
+/-- counter-model (seeded change C18-c: handler installed only when some source is a COMPRESSED journal / evtx, so a run over
+tar-archived ones has none): one worker step after the start the temporary file exists; a kill there leaves it behind -/
+theorem no_handler_leaves_file :
+    (runGen (init 1) [.work 0]).map (fun s => leftovers (killed s)) = some 1 := by decide
+
 end S4V.Props.C18
